@@ -99,15 +99,40 @@ def run_case(rec, case):
     src, st, pt = drive.fresh(wd, odd + ".suit"), drive.fresh_out(wd, odd + ".hex"), drive.fresh_out(wd, odd + ".hex")
     with open(src, "wb") as fh:
         fh.write(data)
-    full = dict(case, size=size, dfu=dfu, uci=uci, caches=caches, route=route)
+    spelling = None
+    if route in ("lib", "cmd", "cli") and r.random() < 0.2:
+        # the input path written another way: through `./`, a doubled slash, or `<symlinked dir>/..` - which the OS
+        # resolves against the link's TARGET, so that a textual normalisation names another file; a same-named decoy
+        # waits at the textually normalised place
+        spelling = r.choice(["dot-slash", "double-slash", "symlinked-dir-dot-dot"])
+        base = os.path.basename(src)
+        if spelling == "dot-slash":
+            src_used = os.path.join(wd, ".", base)
+        elif spelling == "double-slash":
+            src_used = wd + os.sep + os.sep + base
+        else:
+            real = os.path.join(wd, f"real{case['n']}")
+            os.makedirs(os.path.join(real, "sub"), exist_ok=True)
+            link = os.path.join(wd, f"link{case['n']}")
+            if os.path.lexists(link):
+                os.unlink(link)
+            os.symlink(os.path.join(real, "sub"), link)
+            os.replace(src, os.path.join(real, base))                    # the file the OS reaches
+            with open(src, "wb") as fh:                                  # the decoy at the textual place
+                fh.write(b"DECOY " * 7)
+            src_used = os.path.join(link, "..", base)
+        rec.count("input-path-spelling:" + spelling)
+    else:
+        src_used = src
+    full = dict(case, size=size, dfu=dfu, uci=uci, caches=caches, route=route, spelling=spelling)
     exc = None
     try:
         if route == "lib":
             from suit_generator.cmd_image import ImageCreator
-            ImageCreator.create_files_for_update(src, st, pt, uci, dfu, caches)
+            ImageCreator.create_files_for_update(src_used, st, pt, uci, dfu, caches)
         elif route == "cmd":
             from suit_generator import cmd_image
-            cmd_image.main(image="update", input_file=src, storage_output_file=st, dfu_partition_output_file=pt,
+            cmd_image.main(image="update", input_file=src_used, storage_output_file=st, dfu_partition_output_file=pt,
                            update_candidate_info_address=uci, dfu_partition_address=dfu, dfu_max_caches=caches)
         elif route == "build.py":
             kc = drive.fresh(wd, ".config")
@@ -121,7 +146,7 @@ def run_case(rec, case):
             if rc != 0:
                 exc = RuntimeError(f"build.py exit {rc}: {err[-300:]}")
         else:
-            argv = ["image", "update", "--input-file", src, "--storage-output-file", st, "--dfu-partition-output-file",
+            argv = ["image", "update", "--input-file", src_used, "--storage-output-file", st, "--dfu-partition-output-file",
                     pt, "--update-candidate-info-address", hex(uci), "--dfu-partition-address", str(dfu),
                     "--dfu-max-caches", str(caches) if r.random() < 0.6 else "0" * r.choice([1, 2]) + str(caches)]
             if route == "cli":
